@@ -24,6 +24,7 @@ import (
 // ---- recording environment ----
 
 type vStore struct {
+	slow     bool
 	loadData *store.PersistedData
 	saved    []*store.PersistedData
 	saveErr  error
@@ -37,6 +38,9 @@ func (s *vStore) Load() (*store.PersistedData, error) {
 }
 
 func (s *vStore) Save(data *store.PersistedData) error {
+	if s.slow {
+		verifYield() // writing the snapshot takes time: a switch point (charged to the preemption bound)
+	}
 	s.saved = append(s.saved, data)
 	return s.saveErr
 }
